@@ -226,8 +226,8 @@ theorem topStr_paras (sty : Styles) (st : MSt) (l : List Node) (h : ∀ n ∈ l,
     with inline content (text, spans, links, bookmark references and the other `inline_markup` elements, text:s / tab /
     line-break, bookmarks and the other ignored empty elements, images; headings with a decimal outline level), and
     whose styles the model can read (`loadStyles` succeeds), `toString` returns a string and the visible text is a
-    subsequence of it, white space dropped on both sides.  Outside: lists, tables, sections, frames, notes (the known
-    findings KF-C18-5 … 9 live there; list and table conversion is tied by the correspondence only). -/
+    subsequence of it, white space dropped on both sides.  Outside: lists, tables, sections, frames, notes
+    (their conversion is tied to the code by the exact-string correspondence only). -/
 theorem moin_total_complete_partial (stylesDoc contentDoc : Node) (sty : Styles) (body : Node) (bs : List Node)
     (textEl : Node) (more paras : List Node) (h1 : loadStyles stylesDoc contentDoc = .ok sty)
     (h2 : byTag contentDoc tBody = body :: bs) (h3 : kidsOf body = textEl :: more) (h4 : kidsOf textEl = paras)
